@@ -44,7 +44,11 @@ func c14Pure(tier string) *PureResult {
 		frontier = next
 	}
 	groups = append(groups, "checkpoint", "instance", "all", "g:checkpoint", "checkpoint:1", "g:checkpoint:1", "a:instance:all")
-	vbs := []uint16{0, 1, 10, 11, 100, 1023}
+	// long group names (around and beyond what fits into a 250-byte key together with the prefix and the id)
+	for _, n := range []int{100, 200, 217, 218, 219, 220, 221, 222, 223, 230, 250, 300} {
+		groups = append(groups, strings.Repeat("g", n), strings.Repeat("g", n-1)+"h")
+	}
+	vbs := []uint16{0, 1, 9, 10, 11, 99, 100, 999, 1000, 1023}
 	seen := map[string]string{}
 	for _, g := range groups {
 		for _, vb := range vbs {
@@ -81,6 +85,32 @@ func c14Pure(tier string) *PureResult {
 			res.Distinct++
 		}
 	}
+	// the same rule on every path that builds keys: a session whose group name contains a dot is rejected when it
+	// LOADS its checkpoints (start-up), not only when it first saves - also in read-only mode, where no save ever
+	// happens
+	for _, ro := range []bool{false, true} {
+		for _, g := range []string{"a.b", ".", "g.1", "ok"} {
+			o := EnvOpts{Vbs: 1, Group: g, ReadOnly: ro}
+			c := NewCluster(&o)
+			var loadErr error
+			finished := false
+			r := vrt.Run(vrt.Options{MaxSteps: 100000, NoTimerAlt: true}, func() {
+				e := NewEnv(c, o)
+				_, _, loadErr = e.Meta.Load([]uint16{0}, "uuid-src")
+				finished = true
+			})
+			rejected := r.Status == vrt.StatusCrash || loadErr != nil || !finished
+			res.Evaluations++
+			res.Distinct++
+			if strings.Contains(g, ".") && !rejected {
+				add(fmt.Sprintf("group name %q (contains a dot) was accepted when the checkpoints are loaded (read-only metadata: %v)", g, ro))
+			}
+			if !strings.Contains(g, ".") && rejected {
+				add(fmt.Sprintf("group name %q was rejected when the checkpoints are loaded", g))
+			}
+		}
+	}
+	resetGlobals()
 	// IsMetadata over all keys of length <= 3 over a small alphabet and prefix-boundary strings
 	ka := []string{"_", "c", ":", "t", "x"}
 	keys := []string{""}
